@@ -1,4 +1,4 @@
-import Vita.C12.GenFlow
+import Vita.C12.FlowTable
 import Vita.C12.Lemmas
 /-!
   C12 — a failed load leaves the target untouched (property theorems).
@@ -24,14 +24,6 @@ namespace Vita.C12
 open Vita.C11
 
 /-! ### (a) the extracted data-flow table -/
-
-open Flow in
-/-- entry `i` is one of the loads the property names -/
-def okF (i : Nat) : Bool := decide (GenF.kinds.getD i .weak = .load)
-
-open Flow in
-/-- the documented ways entry `i` may report failure -/
-def allowF (i : Nat) : List FK := GenF.allowTab.getD i []
 
 open Flow in
 /-- every load the property names writes no member of `*this` on a path that can still fail -/
@@ -100,12 +92,6 @@ theorem documented_kinds :
         | .ctor | .builder => [.throwFmt]
         | .factory => [.retNull, .throwFmt]) := by
   decide
-
-open Flow in
-/-- the names of the members an entry may have modified when it fails -/
-def dirtyNames (i : Nat) : Bool × List String :=
-  let w := dirty okF (GenF.table.getD i .skip)
-  (w.all, (w.ms.map (GenF.memberNames.getD · "?")).eraseDups)
 
 open Flow in
 /-- what a failing execution of ANY entry (the loads documented "could be changed" included) leaves
